@@ -181,3 +181,27 @@ Proof.
   apply andb_prop in E3. destruct E3 as [B C]. apply Z.eqb_eq in C. subst s.
   exists img. repeat split; try assumption. exists v. split; [reflexivity|exact B].
 Qed.
+
+Lemma rd_split m off n : in_rangeb m off n = true -> exists pre post, m = pre ++ rd m off n ++ post /\ len pre = off.
+Proof.
+  unfold in_rangeb, rd. intros H. apply andb_prop in H. destruct H as [H H3]. apply andb_prop in H. destruct H as [H1 H2].
+  apply Z.leb_le in H1, H2, H3.
+  exists (firstn (Z.to_nat off) m), (skipn (Z.to_nat n) (skipn (Z.to_nat off) m)). split.
+  - rewrite firstn_skipn. rewrite firstn_skipn. reflexivity.
+  - unfold len. rewrite firstn_length. lia.
+Qed.
+Theorem heap_img_ok_sound c : heap_img_ok c = None ->
+  exists img, enc (hc_ty c) (hc_val c) = Some img /\ len img = hc_size c /\ sits img (hc_mem c) (hc_off c) /\
+    exists v, dec (hc_ty c) (hc_mem c) (hc_off c) = Some (v, hc_size c) /\ val_eqb v (hc_val c) = true.
+Proof.
+  unfold heap_img_ok. destruct (enc (hc_ty c) (hc_val c)) as [img|]; [|discriminate].
+  destruct (negb (len img =? hc_size c) || negb (in_rangeb (hc_mem c) (hc_off c) (hc_size c))) eqn:E1; [discriminate|].
+  destruct (negb (cells_match img (rd (hc_mem c) (hc_off c) (hc_size c)))) eqn:E2; [discriminate|].
+  unfold heap_ok. destruct (dec (hc_ty c) (hc_mem c) (hc_off c)) as [[v s]|]; [|discriminate].
+  destruct (val_eqb v (hc_val c) && (s =? hc_size c)) eqn:E3; [|discriminate]. intros _.
+  apply orb_false_elim in E1. destruct E1 as [A R]. apply negb_false_iff in A, R, E2. apply Z.eqb_eq in A.
+  apply andb_prop in E3. destruct E3 as [B C]. apply Z.eqb_eq in C. subst s.
+  exists img. split; [reflexivity|]. split; [exact A|]. split.
+  - destruct (rd_split _ _ _ R) as [pre [post [Em Lp]]]. pose proof (cells_match_sits img _ pre post E2) as Hs. rewrite <- Em, Lp in Hs. exact Hs.
+  - exists v. split; [reflexivity|exact B].
+Qed.
